@@ -1,6 +1,6 @@
 (* C07 proofs, part 7: prefix unary operators (+ - ! ~ * & ++ --) and isPrefixUnary. *)
 From Coq Require Import List NArith Bool Arith Lia.
-From CV Require Import Ast.Defs Ast.Basics Ast.Ctx Ast.Stage1.
+From CV Require Import Ast.Defs Ast.Frag Ast.Basics Ast.Ctx Ast.Stage1.
 Import ListNotations.
 
 Lemma pre_cand : forall o,
